@@ -235,4 +235,35 @@ theorem findCurrent_sound {ι ρ : Type} [DecidableEq ι] (data : List (ι × ρ
   unfold findCurrent at h
   exact ⟨List.mem_of_find?_eq_some h, by simpa using List.find?_some h⟩
 
+/-! ### splitting method -/
+
+theorem product3_length {α β γ : Type} (as : List α) (bs : List β) (cs : List γ) :
+    (product3 as bs cs).length = as.length * bs.length * cs.length := by
+  unfold product3
+  rw [length_flatMap_uniform _ (bs.length * cs.length) as
+    (fun a _ => length_flatMap_uniform _ cs.length bs (fun b _ => by simp)), Nat.mul_assoc]
+
+/-- with `method = splitting` there is one simulation per (code, noise, decoder) -/
+theorem simsOfRanges_splitting_length (r : Ranges) (p : PV) (sims : List SimT)
+    (hm : methodOf r = .ok ("splitting", p)) (h : simsOfRanges r = .ok sims)
+    (cr nr dr : List Block) (er : List PV) (hp : parseAllRanges r = .ok (cr, nr, dr, er)) :
+    sims.length = cr.length * nr.length * dr.length := by
+  unfold simsOfRanges at h
+  rw [hp] at h
+  simp only at h
+  cases hc : mapE instCode cr with
+  | error e => rw [hc] at h; cases h
+  | ok codes =>
+    rw [hc] at h
+    simp only at h
+    cases hn : mapE instNoise nr with
+    | error e => rw [hn] at h; cases h
+    | ok noises =>
+      rw [hn, hm] at h
+      simp only at h
+      have hne : ("splitting" == "direct") = false := by decide
+      rw [hne] at h
+      simp only [Bool.false_eq_true, if_false, beq_self_eq_true, if_true] at h
+      rw [mapE_length _ _ _ h, product3_length, mapE_length _ _ _ hc, mapE_length _ _ _ hn]
+
 end Panqec.Spec
